@@ -24,6 +24,10 @@ PROSE = [
  ("Paragraph", "The text `a := 99` is inline code."),
  ("Paragraph", "Inline evaluation {6 * 7} inside a paragraph."),
  ("InfoBlock", "(i)> An informational block."),
+ # inline evaluations that FAIL (an undefined name; a user function whose call fails at run time) are still prose
+ ("Paragraph", "Inline evaluation {zzundefq + 1} fails quietly inside a paragraph."),
+ ("Paragraph", "The result would be {zzbad(1)} if it worked."),
+ ("Paragraph", "No arm matches in {zzpick(5)} here."),
  # comments are prose too: a comment never changes any value, whatever it contains (statement separators, statement-like text)
  ("MechCode:Comment.paragraph", "-- a note about a and b"),
  ("MechCode:Comment.paragraph", "-- keep the limit; a = 6"),
@@ -49,7 +53,7 @@ def render_block(blk, n, pos, pool):
     if blk["b"] == "prose":
         if pos == 0 and n % 5 == 0: return TITLE[1]
         return pool[(n * 7 + pos * 3) % len(pool)][1]
-    lines = [S.stmt(a) for a in blk["st"]]
+    lines = [S.stmt(dict(a, i=(n + pos + j) if a["a"] == "FailingCall" else a.get("i", 0))) for j, a in enumerate(blk["st"])]
     # comment lines between the statements of code blocks and fences (inert wherever they stand)
     k = (n * 3 + pos) % 4
     if k <= 1 and len(lines) >= 1:      # never as the first line of a block: `--` right after a list reads as list text
@@ -81,7 +85,9 @@ def run(rep, tier, seed):
     names = ["a", "b"]
     reqs = []
     for n, cs in enumerate(cases):
-        text = "\n\n".join(render_block(b, n, i, pool) for i, b in enumerate(cs["doc"])) + "\n"
+        blocks = [render_block(b, n, i, pool) for i, b in enumerate(cs["doc"])]
+        blocks.insert(1 if blocks and blocks[0] == TITLE[1] else 0, S.FN_DEFS)       # function definitions change no variable
+        text = "\n\n".join(blocks) + "\n"
         fns = sorted(cs["subs"].keys())
         reqs.append({"id": n, "mode": "session", "stmts": [text], "opts": {"store": True, "names": names, "subs": fns}})
     outs = execpool.run_requests(reqs, nworkers=16, timeout=120)
